@@ -453,7 +453,8 @@ fn verif_c10_stream_pipeline() {
                 "shifted_framing"
             }
             7 => {
-                let g = r.below(300) as usize;
+                // (an empty body is a valid input with zero records, so garbage has at least one byte)
+                let g = 1 + r.below(300) as usize;
                 body = r.bytes(g);
                 "garbage_body"
             }
@@ -588,6 +589,42 @@ fn verif_c10_info_parsers() {
                     json!({"domain_len": dl, "float_bits": format!("{:x}", f.to_bits()), "outcome": format!("{o:?}")}),
                 ),
             }
+        }
+    }
+    rec.finish();
+}
+
+/// Small workload for the Miri interpreter (also runs natively): metadata parsers and record framing on short inputs.
+#[test]
+fn verif_c10_miri_parsers_x1() {
+    let env = vlib::env();
+    let mut rec = Recorder::new("C10", "verif_c10_miri_parsers_x1");
+    for idx in 0..300usize {
+        let mut r = VRng::new(env.seed ^ 0x3141, idx as u64);
+        let len = idx % 45;
+        let mut b = r.bytes(len);
+        if !b.is_empty() && idx % 2 == 0 {
+            let p = r.below(b.len() as u64) as usize;
+            b[p] = 0;
+        }
+        rec.eval();
+        let res = if idx % 3 == 0 {
+            catch(|| HybridConversionInfo::from_bytes(&b).map(|_| ()).is_ok())
+        } else if idx % 3 == 1 {
+            catch(|| HybridImpressionInfo::from_bytes(&b).map(|_| ()).is_ok())
+        } else {
+            catch(|| Enc::try_from(Bytes::copy_from_slice(&b)).is_ok())
+        };
+        match res {
+            Ok(_) => {
+                rec.count("miri_parser_calls");
+                rec.distinct(&(idx % 3, len));
+            }
+            Err(p) => rec.violation(
+                "panic in a report parser on arbitrary bytes",
+                json!({"kind": "panic", "input": "miri_small", "panic": panic_class(&p)}),
+                json!({"case": idx, "bytes": hex(&b), "panic": p}),
+            ),
         }
     }
     rec.finish();
